@@ -1038,6 +1038,21 @@ fn go_session(ctx: &Ctx, idx: usize, seeds: &[String], prop: &str) {
         }
         out::count("C09.sessions_starting_with_a_go_on_a_finished_game", 1);
     }
+    if prop == "C14" && idx < 2 {
+        // the big-cache sessions start from a full middlegame position of the bench list (a sparse
+        // position revisits the same few thousand positions and never fills the cache)
+        let fens = corpus::bench_fens();
+        let rich: Vec<&String> = fens.iter().filter(|f| Pos::from_fen(f).map(|p| p.sq.iter().filter(|&&x| x != 0).count() >= 24 && !p.legal_moves().is_empty()).unwrap_or(false)).collect();
+        if !rich.is_empty() {
+            let fen = rich[(idx * 5 + ctx.seed as usize) % rich.len()].clone();
+            g = Game {
+                start_fen: fen.clone(),
+                is_startpos: false,
+                moves: vec![],
+                positions: vec![Pos::from_fen(&fen).unwrap()],
+            };
+        }
+    }
     e.send(&g.command());
     if prop == "C14" && idx < 2 {
         // a long-lived process with a very large cache: a multi-million-node search first, then
@@ -1047,6 +1062,20 @@ fn go_session(ctx: &Ctx, idx: usize, seeds: &[String], prop: &str) {
         let o = do_go(&mut e, &big, p0.stm);
         out::count("C14.big_cache_sessions", 1);
         c14_verdict(idx, &e, &o, &big, &p0, &format!("'{}' then '{}'", g.command(), big.command()));
+        // ... and three more on other full positions: only full-width nodes are cached, so it takes
+        // some 15-20 million nodes over different positions to get well past a million entries
+        let fens = corpus::bench_fens();
+        for k in 1..4usize {
+            let fen = &fens[(idx * 5 + k * 11 + ctx.seed as usize) % fens.len().max(1)];
+            let Ok(pk) = Pos::from_fen(fen) else { continue };
+            if pk.legal_moves().is_empty() {
+                continue;
+            }
+            e.send(&format!("position fen {fen}"));
+            let more = Limits { nodes: Some(5_000_000), ..Limits::default() };
+            let o = do_go(&mut e, &more, pk.stm);
+            c14_verdict(idx, &e, &o, &more, &pk, &format!("'position fen {fen}' then '{}' (big-cache session)", more.command()));
+        }
         for d in [3u64, 1, 4] {
             let g2 = random_game(&mut rng, seeds, 10, true);
             e.send(&g2.command());
